@@ -467,6 +467,15 @@ func (w *worker[T, JobType]) goListenToContext() {
 // It continuously checks if the worker is running, has available capacity, and if there are jobs in the queue
 // When all conditions are met, it processes the next job in the queue
 func (w *worker[T, JobType]) goEventLoop() {
+	// Stop and Restart replace the channel under w.mx
+	w.mx.RLock()
+	eventLoopSignal := w.eventLoopSignal
+	w.mx.RUnlock()
+
+	if eventLoopSignal == nil {
+		return
+	}
+
 	go func(signal <-chan struct{}) {
 		for range signal {
 			// a loop that outlived a Restart must not dispatch next to its successor
@@ -480,7 +489,7 @@ func (w *worker[T, JobType]) goEventLoop() {
 			// without any job completing
 			w.releaseWaiters(w.curProcessing.Load())
 		}
-	}(w.eventLoopSignal)
+	}(eventLoopSignal)
 }
 
 // isCurrentLoop tells whether signal is still the worker's event loop channel (Restart replaces it).
